@@ -287,6 +287,10 @@ void of_mod2sparse_copyrows_opt (of_mod2sparse	*m,		/* Matrix to copy */
 		{
 			OF_PRINT_LVL (1, ("mod2sparse_copyrows_opt: Row index out of range:   rows[i] = %d\n", rows[i]))
 			OF_PRINT_ERROR(("Row index out of range"));
+			if (__was_null == true)
+			{
+				of_free (__parsing);
+			}
 			return ;
 		}
 		__e = of_mod2sparse_first_in_row (m, rows[i]);
@@ -378,6 +382,7 @@ void of_mod2sparse_copycols_opt (of_mod2sparse	*m,	/* Matrix to copy */
 		{
 			OF_PRINT_ERROR(("Column index out of range"));
 			OF_PRINT_LVL (1, (" mod2sparse_copycols: Column index out of range cols[j] = %d\n", cols[j]))
+			of_free (__parsing);
 			OF_EXIT_FUNCTION
 			return ;
 		}
